@@ -64,6 +64,8 @@ fn main() {
                 "flush" => dbops.push(api::DbOp::Flush),
                 "compact" => dbops.push(api::DbOp::CompactAll),
                 "snapshot" => dbops.push(api::DbOp::Snapshot),
+                // batch k1 v1 k2 ! ...   ('!' as value = delete)
+                "batch" => dbops.push(api::DbOp::Batch(t[2..].chunks(2).map(|c| (unhex(c[0]), if c[1] == "!" { None } else { Some(unhex(c[1])) })).collect())),
                 "reopen" => dbops.push(api::DbOp::Reopen(t[2] == "reuse")),
                 _ => panic!("bad db op"),
             },
@@ -120,6 +122,7 @@ fn main() {
                 match op {
                     api::DbOp::Put(k, v) => { model.insert(k.clone(), Some(v.clone())); }
                     api::DbOp::Delete(k) => { model.insert(k.clone(), None); }
+                    api::DbOp::Batch(ops) => { for (k, v) in ops { model.insert(k.clone(), v.clone()); } }
                     _ => {}
                 }
             }
@@ -150,6 +153,7 @@ fn main() {
                 match op {
                     api::DbOp::Put(k, v) => { model.insert(k.clone(), Some(v.clone())); allkeys.insert(k.clone()); }
                     api::DbOp::Delete(k) => { model.insert(k.clone(), None); allkeys.insert(k.clone()); }
+                    api::DbOp::Batch(ops) => { for (k, v) in ops { model.insert(k.clone(), v.clone()); allkeys.insert(k.clone()); } }
                     api::DbOp::Snapshot => frozen.push((i, model.clone())),
                     api::DbOp::Reopen(_) => frozen.clear(),
                     _ => {}
